@@ -233,10 +233,6 @@ func (s *archSession) attempt(k cand) string {
 		return "panic"
 	}
 	code := resCode(r)
-	s.c.Op(op, code+" "+archiveCanon(s.a.Archive()))
-	s.noteOffer(k)
-	after := s.members()
-	// refusal reasons / stored clauses, directly on the implementation
 	domBy, dup := false, false
 	for _, m := range before {
 		if refDominates(m.vec, k.vec) {
@@ -246,6 +242,17 @@ func (s *archSession) attempt(k cand) string {
 			dup = true
 		}
 	}
+	shown := code
+	if (code == "RD" || code == "RU") && domBy && dup {
+		// both reasons hold (a situation a real model cannot produce: equal action sets have equal values): the property allows
+		// either, which one is named depends on the order in which the implementation looks
+		shown = "R*"
+		s.c.Stat("refusal with both reasons present (either accepted)")
+	}
+	s.c.Op(op, shown+" "+archiveCanon(s.a.Archive()))
+	s.noteOffer(k)
+	after := s.members()
+	// refusal reasons / stored clauses, directly on the implementation
 	switch code {
 	case "RD", "RU":
 		if !domBy && !dup {
